@@ -176,7 +176,9 @@ impl<'a> Out<'a> {
         }
         for p in paras {
             let k = p.len() - 1; // characters in the paragraph
-            if k <= c.max_line_chars {
+            if c.max_line_chars == usize::MAX {
+                // no lines for this family
+            } else if k <= c.max_line_chars {
                 for i in 0..k {
                     for j in i + 1..=k {
                         res.push((p[i], p[j]));
@@ -406,6 +408,64 @@ pub fn main(args: &[String]) {
         let d = o.rng.below(3);
         let enc = if o.rng.chance(1, 5) { 16 } else { 8 };
         o.emit(&Case { enc, dir: dir_of(d), items, ds: None, fam: "G3".into(), max_line_chars: 0 });
+    }
+
+    // ---- G3b: exhaustive short programs AT the limits -------------------------------------------
+    // prefix climbing to explicit depth 124/125 (embeddings or isolates), then every program of
+    // length <= 4 (thorough: 5) over {LRI, RLE, LRO, PDI, PDF}, a marker letter after each step so
+    // that every intermediate state is observable, then a closing tail
+    {
+        let steps: [u32; 5] = [0x2066, 0x202B, 0x202D, 0x2069, 0x202C];
+        let plen = if thorough { 5 } else { 4 };
+        let mut progs: Vec<Vec<usize>> = vec![vec![]];
+        let mut all: Vec<Vec<usize>> = Vec::new();
+        for _ in 0..plen {
+            let mut nxt = Vec::new();
+            for p in &progs { for s in 0..steps.len() { let mut t = p.clone(); t.push(s); nxt.push(t); } }
+            all.extend(nxt.iter().cloned());
+            progs = nxt;
+        }
+        for (pi, prog) in all.iter().enumerate() {
+            // quick tier: full length-4 space with one prefix each (rotating), all shorter ones with every prefix
+            for pf in 0..4usize {
+                if !thorough && prog.len() == plen && pf != pi % 4 { continue; }
+                let mut items = Vec::new();
+                let depth = if pf % 2 == 0 { 125 } else { 124 };
+                for j in 0..depth {
+                    let c = if pf < 2 { if j % 2 == 0 { 0x202B } else { 0x202A } } else { if j % 2 == 0 { 0x2067 } else { 0x2066 } };
+                    items.push(Item::Ch(c));
+                }
+                items.push(Item::Ch(0x61));
+                for (k, &s) in prog.iter().enumerate() {
+                    items.push(Item::Ch(steps[s]));
+                    items.push(Item::Ch(if (k + pi) % 3 == 0 { 0x5D0 } else { 0x62 + k as u32 }));
+                }
+                for c in [0x202C, 0x78, 0x2069, 0x79, 0x202C, 0x7A] { items.push(Item::Ch(c)); }
+                let d = (pi + pf) % 3;
+                o.emit(&Case { enc: 8, dir: dir_of(d), items, ds: None, fam: "G3".into(), max_line_chars: usize::MAX });
+            }
+        }
+        // 62/63 pending opening brackets, then every program of length <= 3 over bracket/isolate steps
+        let bsteps: [&[u32]; 5] = [&[0x28], &[0x29], &[0x2066, 0x61, 0x2069], &[0x5D0], &[0x5B]];
+        let mut progs: Vec<Vec<usize>> = vec![vec![]];
+        let mut all: Vec<Vec<usize>> = Vec::new();
+        for _ in 0..3 {
+            let mut nxt = Vec::new();
+            for p in &progs { for s in 0..bsteps.len() { let mut t = p.clone(); t.push(s); nxt.push(t); } }
+            all.extend(nxt.iter().cloned());
+            progs = nxt;
+        }
+        for (pi, prog) in all.iter().enumerate() {
+            for nb in [62usize, 63] {
+                let mut items = vec![Item::Ch(if pi % 2 == 0 { 0x5D0 } else { 0x61 })];
+                for _ in 0..nb { items.push(Item::Ch(0x28)); }
+                for &s in prog { for &c in bsteps[s] { items.push(Item::Ch(c)); } }
+                items.push(Item::Ch(0x5D0));
+                for _ in 0..3 { items.push(Item::Ch(0x29)); }
+                items.push(Item::Ch(0x61));
+                o.emit(&Case { enc: 8, dir: dir_of(pi + nb), items, ds: None, fam: "G3".into(), max_line_chars: usize::MAX });
+            }
+        }
     }
 
     // ---- G4: UTF-16 arrangements ------------------------------------------------------------------
